@@ -24,7 +24,7 @@ RULE = ("Hypothesis draws system, a subset near the sufficiency boundary (greedy
         "then 0-2 columns removed or 0-3 added) or a fully random subset, consistent values or values perturbed so that the "
         "squared distance from the invariant subspace is 0, < tol/100 or = 1e4*tol, the four options, and a presentation "
         "(column order, case, extra columns, int dtype) and environment (cwd with a directory named like the system, relations "
-        "given as a path to a copy / a line-reordered copy); non-trivial = subset within +-2 columns of the boundary, or "
+        "given as a path to a copy / a line-reordered copy); a refused table is passed a second time (same object); non-trivial = subset within +-2 columns of the boundary, or "
         "perturbed, or non-default presentation/environment; distinct by the whole drawn case")
 ASSUMPTIONS = [
     "sufficiency: rank of the invariant-subspace basis restricted to the supplied components (float SVD, 1e-9 gap)",
@@ -250,6 +250,21 @@ def oracle(ctx, c, case=None):
         raise PropertyViolation("C09/refused-valid%s" % tag, "table refused although %s and %s: %s" % (
             "sufficient" if suff else "ignore_rank", cls, str(raised)[:160]), case)
     if raised is not None:
+        # a refused table is still refused when the very same table object is passed again (users try one system after the
+        # other on one DataFrame), and the refusal has not changed it
+        with Env(c) as env:
+            try:
+                call_fill(df, env.system_arg, **flags)
+                again = None
+            except Warning as e:
+                again = e
+            except Exception as e:  # noqa
+                from ..runner import crash_site
+                raise PropertyViolation("C09/crash%s/%s" % (tag, crash_site(e)), "second call: %s: %s" % (type(e).__name__, str(e)[:200]), case)
+        if again is None:
+            raise PropertyViolation("C09/accepted-after-refusal%s" % tag, "the table refused a moment ago is accepted when passed again", case)
+        if list(df.columns) != list(df_in.columns) or not np.array_equal(df.to_numpy(dtype=float), df_in.to_numpy(dtype=float), equal_nan=True):
+            raise PropertyViolation("C09/refusal-changes-table%s" % tag, "the caller's table is modified by a refused call", case)
         return info
     # ---------------- acceptance clauses ------------------------------------------------------------
     comps, dup = table_to_components(out)
